@@ -168,6 +168,7 @@ def tu_key(path):
 
 def _dep_hash(deps, command, toolhash):
     h = hashlib.sha1()
+    h.update(b"extractor-args-v2:also-root")
     h.update(command.encode())
     h.update(toolhash.encode())
     for d in sorted(deps):
@@ -217,6 +218,8 @@ def _extract_one(cfg, dbdir, entry, toolhash, force):
     tmp = os.path.join(fdir, key + ".%d.json" % os.getpid())
     r = subprocess.run([TOOL_BIN, "-p", dbdir,
                         "--root=" + os.path.join(REPO, "symengine"),
+                        "--also-root=" + os.path.join(VERIF, "fixtures",
+                                                      "tu"),
                         "-o", tmp, entry["file"]],
                        capture_output=True, text=True)
     if r.returncode != 0 or not os.path.exists(tmp):
